@@ -204,12 +204,11 @@ Qed.
 
 (** the entries of the queries are not touched by a session *)
 Lemma commit_other : forall s sets fuel s1 rs batch s4 m,
-  (forall n i, get_info s n = Some i -> nkind n = KInput -> i_fwd i = []) ->
   fold_left fsess_step sets (set_ts s (s_ts s + 1)%N, [], []) = (s1, rs, batch) ->
   propagate fuel (set_visited (set_stat s1 0%N) []) batch = Ok s4 ->
   nkind m <> KInput -> get_info s4 m = get_info s m.
 Proof.
-  intros s sets fuel s1 rs batch s4 m Hin Hfold Hprop Hk.
+  intros s sets fuel s1 rs batch s4 m Hfold Hprop Hk.
   apply propagate_same in Hprop. destruct Hprop as (N1 & _).
   assert (E : get_info s4 m = get_info s1 m) by (unfold get_info; rewrite N1; reflexivity). rewrite E. clear E N1.
   assert (G : forall sets cur rs batch cur' rs' batch',
